@@ -221,7 +221,20 @@ fn relations() -> Sub {
         }
         ids.push(b);
     }
-    Sub::new("id-relations", 64, "all 64 x 64 ordered pairs of ids (differences in the first, middle, last byte and everywhere): ==, cmp, partial_cmp and Hash agree with the 33 bytes; Copy / Clone preserve them", move |idx, describe| {
+    // pairs whose byte differences cancel under XOR or under addition (two bytes changed by the same mask / by +d and -d)
+    for (i, j, m) in [(0usize, 1usize, 0x01u8), (0, 32, 0x80), (15, 16, 0xff), (31, 32, 0x10), (3, 29, 0x55)] {
+        let mut b = [0x42u8; 33];
+        ids.push(b);
+        b[i] ^= m;
+        b[j] ^= m;
+        ids.push(b);
+        let mut c = [0x42u8; 33];
+        c[i] = c[i].wrapping_add(m);
+        c[j] = c[j].wrapping_sub(m);
+        ids.push(c);
+    }
+    let n_ids = ids.len() as u64;
+    Sub::new("id-relations", n_ids, "all ordered pairs of 79 ids (differences in the first, middle, last byte, everywhere, and pairs of bytes changed by the same mask or by +d / -d so that the differences cancel): ==, cmp, partial_cmp and Hash agree with the 33 bytes; Copy / Clone preserve them", move |idx, describe| {
         use crate::backends::V4;
         let mut o = Outcome::new();
         o.evals = 0;
